@@ -117,6 +117,7 @@ func workerMain(args []string) {
 	variant := fs.String("variant", "", "")
 	tier := fs.String("tier", "quick", "")
 	sitefile := fs.String("sitefile", "", "")
+	genchild := fs.Bool("genchild", true, "generate scenarios in a separate process")
 	fs.Parse(args)
 	setupProcess(*nsites, *racelog)
 	loadSyncSites(*sitefile)
@@ -156,6 +157,59 @@ func workerMain(args []string) {
 			}
 		}
 	}()
+	// Scenario generation executes the code under test too (reference parses
+	// that place faults, solo runs that measure step counts and site hits).
+	// Done in this process it would run each scenario's documents through the
+	// library right BEFORE the scenario is evaluated, and so warm exactly the
+	// process-wide state (content-keyed caches, pools, lazily built tables) a
+	// realistic defect keeps in the wrong place.  A child process generates;
+	// this process only evaluates, so the history a replay file records
+	// (evaluations only) is the whole history of the process.
+	var gen func(i int) []*Scenario = func(i int) []*Scenario { return ph.Gen(rngFor(*seed, *prop+"/"+*phase, i), i) }
+	if *genchild && *worker < *runs {
+		cmd := exec.Command(os.Args[0], "gen", "-framed", "-prop", *prop, "-phase", *phase, "-seed", fmt.Sprint(*seed),
+			"-from", fmt.Sprint(*worker), "-to", fmt.Sprint(*runs-1), "-stride", fmt.Sprint(*workers),
+			"-variant", *variant, "-nsites", fmt.Sprint(*nsites), "-tier", *tier, "-sitefile", *sitefile)
+		cmd.Env = os.Environ()
+		errFile, _ := os.Create(*out + ".gen.stderr")
+		cmd.Stderr = errFile
+		pipe, err := cmd.StdoutPipe()
+		if err != nil {
+			die("gen child: %v", err)
+		}
+		if err := cmd.Start(); err != nil {
+			die("gen child: %v", err)
+		}
+		defer func() { cmd.Process.Kill(); cmd.Wait(); os.Remove(*out + ".gen.stderr") }()
+		rd := bufio.NewReaderSize(pipe, 1<<20)
+		gen = func(i int) []*Scenario {
+			var out []*Scenario
+			for {
+				line, err := rd.ReadBytes('\n')
+				if err != nil {
+					cmd.Wait()
+					b, _ := os.ReadFile(errFile.Name())
+					fmt.Fprintf(os.Stdout, "generator child ended early before run %d: %v: %s\n", i, err, trunc(string(b), 2000))
+					os.Exit(4)
+				}
+				if line[0] == '#' {
+					var got int
+					fmt.Sscanf(string(line), "#END %d", &got)
+					if got != i {
+						fmt.Fprintf(os.Stdout, "generator child out of step: run %d expected %d\n", got, i)
+						os.Exit(4)
+					}
+					return out
+				}
+				var sc Scenario
+				if err := json.Unmarshal(line, &sc); err != nil {
+					fmt.Fprintf(os.Stdout, "generator child: bad scenario line: %v\n", err)
+					os.Exit(4)
+				}
+				out = append(out, &sc)
+			}
+		}
+	}
 	for i := *worker; i < *runs; i += *workers {
 		if budgetFails >= 2 || len(st.Failures) >= 6 || failedEvals >= 60 {
 			// every further hang costs a full step budget, and state that leaks
@@ -166,8 +220,7 @@ func workerMain(args []string) {
 		nruns++
 		atomic.StoreInt64(&progress, time.Now().Unix())
 		current.Store(fmt.Sprintf("%s/%s seed=%d run=%d (generation)", *prop, *phase, *seed, i))
-		r := rngFor(*seed, *prop+"/"+*phase, i)
-		scns := ph.Gen(r, i)
+		scns := gen(i)
 		for j, s := range scns {
 			s.Seed, s.Run, s.Sub, s.Variant = *seed, i, j, *variant
 			atomic.StoreInt64(&progress, time.Now().Unix())
@@ -329,14 +382,18 @@ func genMain(args []string) {
 	variant := fs.String("variant", "", "")
 	nsites := fs.Int("nsites", 0, "")
 	tier := fs.String("tier", "quick", "")
+	sitefile := fs.String("sitefile", "", "")
+	framed := fs.Bool("framed", false, "print '#END <run>' after the scenarios of each run index")
 	fs.Parse(args)
 	setupProcess(*nsites, "")
+	loadSyncSites(*sitefile)
+	debug.SetGCPercent(100) // generation is not part of any recorded history
 	tierThorough = *tier == "thorough"
 	ph := findPhase(*prop, *phase)
 	if ph == nil {
 		die("no phase")
 	}
-	w := bufio.NewWriter(os.Stdout)
+	w := bufio.NewWriterSize(os.Stdout, 1<<20)
 	defer w.Flush()
 	for i := *from; i <= *to; i += *stride {
 		if i < 0 {
@@ -347,6 +404,10 @@ func genMain(args []string) {
 			b, _ := json.Marshal(s)
 			w.Write(b)
 			w.WriteByte('\n')
+		}
+		if *framed {
+			fmt.Fprintf(w, "#END %d\n", i)
+			w.Flush()
 		}
 	}
 }
